@@ -208,7 +208,13 @@ fn cmd_run(args: &[String]) {
         }
         let rf = ReplayFile {
             property: base_prop(&ctx.prop),
-            engine: if profile() == "checked" { "seamsim-checked".into() } else { "seamsim".into() },
+            engine: if cfg!(feature = "experimental") {
+                "seamsim-exp".into()
+            } else if profile() == "checked" {
+                "seamsim-checked".into()
+            } else {
+                "seamsim".into()
+            },
             verif_seed: ctx.seed,
             run_index: n as u64,
             tier: ctx.tier.clone(),
